@@ -3579,6 +3579,10 @@ fn convert_member_key_simple<'a>(
           ast::Type2::UintValue { value, .. } => Value::UINT(value),
           ast::Type2::FloatValue { value, .. } => Value::FLOAT(value),
           ast::Type2::TextValue { value, .. } => Value::TEXT(value),
+          // memberkey = value S ":" and a value is a number, a text or a byte string
+          ast::Type2::UTF8ByteString { value, .. } => Value::BYTE(crate::token::ByteValue::UTF8(value)),
+          ast::Type2::B16ByteString { value, .. } => Value::BYTE(crate::token::ByteValue::B16(value)),
+          ast::Type2::B64ByteString { value, .. } => Value::BYTE(crate::token::ByteValue::B64(value)),
           _ => {
             return Err(Error::PARSER {
               #[cfg(feature = "ast-span")]
@@ -3669,6 +3673,10 @@ fn convert_member_key_simple<'a>(
           ast::Type2::UintValue { value, .. } => Value::UINT(value),
           ast::Type2::FloatValue { value, .. } => Value::FLOAT(value),
           ast::Type2::TextValue { value, .. } => Value::TEXT(value),
+          // memberkey = value S ":" and a value is a number, a text or a byte string
+          ast::Type2::UTF8ByteString { value, .. } => Value::BYTE(crate::token::ByteValue::UTF8(value)),
+          ast::Type2::B16ByteString { value, .. } => Value::BYTE(crate::token::ByteValue::B16(value)),
+          ast::Type2::B64ByteString { value, .. } => Value::BYTE(crate::token::ByteValue::B64(value)),
           _ => {
             return Err(Error::PARSER {
               msg: ErrorMsg {
